@@ -155,6 +155,10 @@ class C07(Check):
         us.append(grad_unit("Square", ("J", "S"), None, 2, time_kind="int_array"))
         us.append(grad_unit("Square", ("S",), ("gamma",), 2, entry="sensitivityIV", ts_sel=("R",), time_kind="int_list"))
         us.append(grad_unit("Normal", ("R",), None, 3, entry="sensitivity", full_output=True, time_kind="int_array"))
+        # every accepted weight form (per-state vector, single scalar), n != p
+        us.append(grad_unit("Square", ("R", "J"), None, 3, weighted="per_state"))
+        us.append(grad_unit("Normal", ("J", "S"), ("gamma", "beta"), 3, weighted="per_state", spread_form="per_state"))
+        us.append(grad_unit("Square", ("S", "R"), None, 3, weighted="scalar", entry="sensitivityIV", ts_sel=("J",)))
         if tier != "quick":
             for kind in ("Normal", "Poisson", "Gamma", "NegBinom"):
                 for sel in [("J", "S"), ("R", "S", "J")]:
